@@ -24,6 +24,7 @@ class Program:
         self.logger = logging.getLogger("x816")
         self.dump_symbols = dump_symbols
         self.parser = parser or MZParser(self.resolver)
+        self._label_pass: tuple[list[NodeProtocol] | None, list[int]] = (None, [])
 
     def get_physical_address(self, logical_address: int) -> int:
         physical_address = self.resolver.get_bus().get_address(logical_address).physical
@@ -47,11 +48,16 @@ class Program:
         self.resolver.last_used_scope = 0
 
         previous_pc = self.resolver.reloc_address
+        # address given to each node (and the end address) while labels are resolved, checked again by emit.
+        label_pass_addresses: list[int] = []
 
         for node in program_nodes:
+            label_pass_addresses.append(previous_pc.logical_value)
             if isinstance(node, SymbolNode):
                 continue
             previous_pc = node.pc_after(previous_pc)
+        label_pass_addresses.append(previous_pc.logical_value)
+        self._label_pass = (program_nodes, label_pass_addresses)
 
         self.resolver_reset()
 
@@ -65,7 +71,11 @@ class Program:
     def emit(self, program: list[NodeProtocol], writer: Writer) -> None:
         current_block = b""
         current_block_addr = self.resolver.pc
-        for node in program:
+        resolved_nodes, label_pass_addresses = self._label_pass
+        check_phase = resolved_nodes is program
+        for index, node in enumerate(program):
+            if check_phase:
+                self._check_phase(label_pass_addresses[index], node)
             node_bytes = node.emit(self.resolver.reloc_address)
 
             if node_bytes:
@@ -83,8 +93,20 @@ class Program:
                 for block_addr, block in node.blocks:
                     writer.write_block(block, block_addr)
 
+        if check_phase:
+            self._check_phase(label_pass_addresses[len(program)], None)
+
         if len(current_block) > 0:
             writer.write_block(current_block, current_block_addr)
+
+    def _check_phase(self, label_pass_address: int, node: NodeProtocol | None) -> None:
+        """The labels are only right if every node is emitted at the address it had when they were resolved."""
+        emit_address = self.resolver.reloc_address.logical_value
+        if label_pass_address != emit_address:
+            raise RuntimeError(
+                f"Phase error: {node if node is not None else 'end of program'} was at {label_pass_address:#08x} "
+                f"while resolving labels but is emitted at {emit_address:#08x}."
+            )
 
     def assemble_string_with_emitter(self, input_program: str, filename: str, emitter: Writer) -> str | None:
         error, nodes = self.parser.parse(input_program, filename)
